@@ -291,6 +291,19 @@ pub struct RequestDispatch<Req, Resp, C> {
     terminal_error: Option<ChannelError<dyn Any + Send + Sync + 'static>>,
 }
 
+#[cfg(tarpc_verif)]
+impl<Req, Resp, C> RequestDispatch<Req, Resp, C> {
+    /// Number of requests written to the transport and not yet finished.
+    pub fn verif_in_flight(&self) -> usize {
+        self.in_flight_requests.len()
+    }
+
+    /// Number of armed deadline timers.
+    pub fn verif_timers(&self) -> usize {
+        self.in_flight_requests.verif_timers()
+    }
+}
+
 impl<Req, Resp, C> RequestDispatch<Req, Resp, C>
 where
     C: Transport<ClientMessage<Req>, Response<Resp>>,
